@@ -102,8 +102,13 @@ func (g *gen) genTwo(typ, typ2 types.Type) error {
 	p.P("// Deprecated: In favour of generics.")
 	p.P("func %s(a, b %s) %s {", name, typeStr, typeStr)
 	p.In()
-	switch typ.(type) {
+	switch b := typ.(type) {
 	case *types.Basic:
+		if b.Info()&types.IsOrdered == 0 {
+			// bool and complex types have no > operator: order them with the derived compare function.
+			p.P("if %s(a, b) > 0 {", g.compare.GetFuncName(typ, typ))
+			break
+		}
 		p.P("if a > b {")
 	default:
 		p.P("if %s(a, b) > 0 {", g.compare.GetFuncName(typ, typ))
@@ -139,8 +144,13 @@ func (g *gen) genSlice(typ *types.Slice, typ2 types.Type) error {
 	p.P("list = list[1:]")
 	p.P("for i, v := range list {")
 	p.In()
-	switch etyp.(type) {
+	switch b := etyp.(type) {
 	case *types.Basic:
+		if b.Info()&types.IsOrdered == 0 {
+			// bool and complex types have no > operator: order them with the derived compare function.
+			p.P("if %s(v, m) > 0 {", g.compare.GetFuncName(etyp, etyp))
+			break
+		}
 		p.P("if v > m {")
 	default:
 		p.P("if %s(v, m) > 0 {", g.compare.GetFuncName(etyp, etyp))
